@@ -605,7 +605,7 @@ func ParseFilterNegate(stack []*Filter) (err error) {
 		return fmt.Errorf("no filter/stats on stack to negate")
 	}
 
-	stack[stackLen-1].negate = true
+	stack[stackLen-1].negate = !stack[stackLen-1].negate
 
 	return
 }
